@@ -6,7 +6,9 @@ Capacity hints and `make`: with the clamp by the text size no hint value can vio
 namespace SSV.DomainSet
 
 theorem clampHint_le (text : Str) (h : Nat) : clampHint text h ≤ text.length / 8 + 1 := by
-  unfold clampHint; omega
+  unfold clampHint
+  simp only [SSV.Gen.C10.hintClampDiv, SSV.Gen.C10.hintClampAdd]
+  omega
 
 /-- for every text shorter than 2^47 bytes (128 TiB) and every hint value, loading never panics in `make`: the outcome
 is exactly the error / builder of the panic-free model -/
